@@ -30,7 +30,7 @@ def C(*a, **k):
     return c
 
 
-MERGE_PROPS = []      # ["C07", "C08"] once the proof is complete
+MERGE_PROPS = ["C07"]
 CUR = ("i_old", "i_com", "i_new")
 BKT = {"i_old": "b_old", "i_com": "b_com", "i_new": "b_new"}
 
@@ -97,9 +97,19 @@ def invariant(mapping, extra=None):
     for i in CUR:
         inv["rest_" + i] = ("implies(%s.active, forall_key(lambda k: implies(mem(%s, k) and not mem(%s, k), %s.key <= k)))"
                             % (i, allkeys(i), seen(i), i))
-    # below the frontier: the result is the merge, and no key is in conflict
-    inv["content"] = ("forall_key(lambda k: implies(" + below_frontier("k") + ", mem(elems(result._keys), k) == " + m_in("k") + "))")
-    inv["no_conflict_so_far"] = ("forall_key(lambda k: implies(" + below_frontier("k") + ", not " + conflict("k") + "))")
+    # the result is the merge of what has been CONSUMED so far (the consumed prefixes are aligned
+    # by the frontier), and no consumed key is in conflict - set equations without a frontier guard
+    def sn(i, k):
+        return "mem(%s, %s)" % (seen(i), k)
+
+    def chs(i, k):
+        base = "(%s != %s)" % (sn(i, k), sn("i_old", k))
+        if mapping:
+            return "(%s or (%s and %s != %s))" % (base, sn(i, k), val(BKT[i], k), val("b_old", k))
+        return base
+    inv["content"] = ("forall_key(lambda k: mem(elems(result._keys), k) == (" + sn("i_com", "k") + " if " + chs("i_com", "k") +
+                      " else " + sn("i_new", "k") + "))")
+    inv["no_conflict_so_far"] = "forall_key(lambda k: not (" + chs("i_com", "k") + " and " + chs("i_new", "k") + "))"
     inv["result_from_inputs"] = "forall_key(lambda k: implies(mem(elems(result._keys), k), " + below_frontier("k") + "))"
     # the smallest-key rule has not been violated by what was consumed so far:
     # a consumed key of O that a side dropped is above that side's first key
@@ -109,7 +119,8 @@ def invariant(mapping, extra=None):
                                  ", b_new._keys[0] < k))")
     if mapping:
         inv["paired"] = "len(result._values) == len(result._keys) and result._values is not result._keys"
-        inv["values"] = "forall(0, len(result._keys), lambda r: result._values[r] == " + m_val("result._keys[r]") + ")"
+        inv["values"] = ("forall(0, len(result._keys), lambda r: result._values[r] == (" + val("b_com", "result._keys[r]") + " if " +
+                         chs("i_com", "result._keys[r]") + " else " + val("b_new", "result._keys[r]") + "))")
         inv["value_sources"] = " and ".join("it_vals(%s._iter) is %s._values and len(%s._values) == len(%s._keys) and %s.useValues"
                                             % (i, BKT[i], BKT[i], BKT[i], i) for i in CUR)
     if extra:
@@ -134,6 +145,12 @@ CURSOR_FACTS = ["inv:cursor_*", "inv:distinct", "inv:sources", "inv:value_source
 # facts the frontier clauses depend on
 FRONT_FACTS = CURSOR_FACTS + ["inv:phase", "inv:front_*", "inv:sub_*", "inv:rest_*", "new:cursor_*", "new:sources", "new:distinct",
                               "new:front_*", "new:sub_*", "lemma:*"]
+
+
+SIMPLE_FACTS = CURSOR_FACTS + ["inv:link", "inv:nonempty_sides", "inv:phase", "post:*", "new:cursor_*", "new:distinct", "new:sources"]
+ORDER_FACTS = FRONT_FACTS + ["inv:sorted", "inv:below_*", "post:*"]
+CONTENT_FACTS = FRONT_FACTS + ["inv:content", "inv:result_from_inputs", "inv:below_*", "inv:sorted", "new:rest_*", "new:below_*",
+                               "new:sorted", "post:Bucket.__setitem__:*"]
 
 
 def contract(cls):
@@ -201,9 +218,17 @@ def contract(cls):
              raises={"BTreesConflictError": {}},
              modifies=[],
              ghost={"allocates": True, "no_compare": True, "split_cases": 1, "single_exit": True,
+                    # quick tier: all three states with a successor link (and, for sets, all without)
+                    "quick_cases": [26] if mapping else [26, 13],
                     "uses": {"*:cursor_*": CURSOR_FACTS, "call:_SetIteration.advance:requires:*": CURSOR_FACTS,
                              "*:distinct": CURSOR_FACTS, "*:sources": CURSOR_FACTS, "*:value_sources": CURSOR_FACTS,
-                             "*:preserve:front_*": FRONT_FACTS, "*:preserve:sub_*": FRONT_FACTS, "*:preserve:rest_*": FRONT_FACTS},
+                             "*:preserve:front_*": FRONT_FACTS, "*:preserve:sub_*": FRONT_FACTS, "*:preserve:rest_*": FRONT_FACTS,
+                             "*:preserve:link": SIMPLE_FACTS, "*:preserve:nonempty_sides": SIMPLE_FACTS,
+                             "*:preserve:result_kind": SIMPLE_FACTS, "*:preserve:phase": SIMPLE_FACTS,
+                             "*:preserve:paired": SIMPLE_FACTS,
+                             "*:preserve:sorted": ORDER_FACTS, "*:preserve:below_*": ORDER_FACTS,
+                             "*:frame:*": SIMPLE_FACTS,
+                             },
                     "witness": {"R": "result", "b_old": "b_old", "b_com": "b_com", "b_new": "b_new"},
                     "at_raise": {"BTreesConflictError": just},
                     "loop_lemmas": ["pe_remaining(b_old._keys)", "pe_remaining(b_com._keys)", "pe_remaining(b_new._keys)",
